@@ -4,7 +4,9 @@ that claiming a property is a one-line change)."""
 import json
 
 SCHED_NOTE = ("sequential consistency; a thread runs atomically between scheduling points (sync operations, sleeps, go, "
-              "accesses to mutable package-level / escaping-closure variables found by the instrumenter); shim fidelity to "
+              "accesses to mutable package-level / escaping-closure variables found by the instrumenter); accesses to the fields of "
+              "lock-carrying structs are not interleaved but feed a vector-clock happens-before check in every scenario (6 single-word / set-once "
+              "races of the unchanged tree are allow-listed, DESIGN.md 4.4); shim fidelity to "
               "package sync; schedules within the preemption and free-choice bounds stated in the evidence")
 SCHED_TECH = ("stateless model checking of the implementation: preemption-bounded exhaustive enumeration of schedules of "
               "closed drivers under a hand-written controlled scheduler (vsched)")
@@ -15,42 +17,55 @@ CHECKS = {
         "JoinAll with a task that submits a task, resize sequences with tasks arriving from a second thread) within preemption "
         "bound 1-3 and free-choice bound 3 is executed; oracle: no deadlock/livelock while a worker exists and a task is queued, "
         "every task ran exactly once, WaitAll/JoinAll/SetWorkerCount post-conditions"),
- "C02": dict(engine="engine-A", cat="model_checking", ref="DESIGN.md 4, 7/C02", note=SCHED_NOTE, tech=SCHED_TECH,
+ "C02": dict(engine="engine-A", also=["engine-B"], cat="model_checking", ref="DESIGN.md 4, 7/C02", note=SCHED_NOTE, tech=SCHED_TECH,
    text="every schedule (preemption bound 1-3, free-choice bound 3) of 44 drivers of the real engine.Processor: 12 cascade shapes "
         "(fan-out, depth, skipped child, failing rules at any position, two rules with/without fail-on-first-error, non-triggering "
         "root) x 1-3 workers plus two cascades in flight; oracle evaluated at the instant AddEventAndWait returns (all actions of "
         "the cascade finished, exactly the expected rules ran, error report exact) and at quiescence (finish handler exactly once, "
-        "all monitors finished, no deadlock, no panic, no 'left events behind')"),
- "C12": dict(engine="engine-A", cat="model_checking", ref="DESIGN.md 4, 7/C12", note=SCHED_NOTE + "; thread ids are non-zero and distinct (NewThreadID never returns 0)", tech=SCHED_TECH,
+        "all monitors finished, no deadlock, no panic, no 'left events behind'); pairs of cascades with a non-triggering root; plus (Engine B) the "
+        "error report seen from ECAL (addEventAndWait inside try/except: type, detail, data of every failing sink of the cascade, over sink "
+        "sets x failing subsets x raise forms)"),
+ "C12": dict(engine="engine-A", cat="model_checking", ref="DESIGN.md 4, 7/C12", note=SCHED_NOTE + "; thread ids are non-zero (NewThreadID never returns 0)", tech=SCHED_TECH,
    text="every schedule (preemption bound 1-3) of 42 drivers of the real interpreter: 2-3 threads evaluating functions directly with own thread "
         "ids, and two sink invocations on 2 workers plus one direct evaluation, entering mutex blocks of names {m,n}, nesting depth 1-3, six "
         "exit kinds (normal, raise, runtime error, return, break, continue); oracle: occupancy of a name never exceeds 1 (harness enter/leave "
         "functions called from ECAL), a schedule with two different names occupied is found, nested same-name entry never blocks, no deadlock, "
-        "no lost update on a counter updated only inside the block, owner table and mutexes released at the end"),
- "C11": dict(engine="engine-A", cat="model_checking", ref="DESIGN.md 4, 7/C11", note=SCHED_NOTE, tech=SCHED_TECH,
+        "no lost update on a counter updated only inside the block, owner table and mutexes released at the end; thread ids are allocated inside "
+        "the threads and must be pairwise distinct; no unordered access to a field of a lock-carrying struct (e.g. the thread-id counter)"),
+ "C11": dict(engine="engine-A", also=["engine-B"], cat="model_checking", ref="DESIGN.md 4, 7/C11", note=SCHED_NOTE, tech=SCHED_TECH,
    text="every schedule (preemption bound 1-2, free-choice bound 1) of 7 drivers: 2-3 events with every mix of failing/succeeding payloads "
         "trigger the same ECAL sink (and two sinks sharing a global function) on 2-3 workers, each added with wait from its own thread; oracle: "
         "every invocation sees its own event and its own let-local at every probe, the error report of each root is exactly (type, detail, "
-        "data) of its own payload, no panic, no happens-before race on any instrumented shared variable"),
- "C13": dict(engine="engine-A", cat="model_checking", ref="DESIGN.md 4, 7/C13", note=SCHED_NOTE + "; the lexer goroutine of a Parse call is a free-running helper (single-producer/single-consumer pipe private to the call) whose accesses to instrumented variables are attributed to its owner thread for the race check", tech=SCHED_TECH,
+        "data) of its own payload, no panic, no happens-before race on any instrumented shared variable or lock-carrying struct field; plus (Engine B, "
+        "sequential) for a 14-program corpus covering every statement and operator kind, at top level, inside a function called twice and inside a "
+        "sink triggered twice: a reflective snapshot of the whole AST + runtime-component tree (unexported fields, spare capacity) is identical before "
+        "and after evaluation - the tree is shared by all concurrent invocations, so evaluation must not write to it"),
+ "C13": dict(engine="engine-A", also=["engine-B"], cat="model_checking", ref="DESIGN.md 4, 7/C13", note=SCHED_NOTE + "; the lexer goroutine of a Parse call is a free-running helper (single-producer/single-consumer pipe private to the call) whose accesses to instrumented variables are attributed to its owner thread for the race check", tech=SCHED_TECH,
    text="every schedule (preemption bound 1-3) of 17 drivers in which 2-3 threads run parser.Parse / ParseWithRuntime (and Validate+Eval of an "
         "interpolating string) on texts with if/elif/else, for, map literals, nested maps, a syntax error; scheduling points are the accesses to "
         "the mutable package-level variables of parser/ and interpreter/ that the instrumenter finds in the current tree (listed in the evidence); "
         "oracle: each concurrent result equals the sequential result, later sequential parses still do, runtime-component ids are pairwise "
-        "distinct, no happens-before race on any instrumented variable, no panic"),
+        "distinct, no happens-before race on any instrumented variable, no panic; plus (Engine B, sequential) for 23 corpus texts and 40 generated "
+        "texts with characters the process has never lexed x {Parse, ParseWithRuntime}: a reflective snapshot of EVERY package-level variable of "
+        "parser and interpreter (accessor generated from the working tree; the locked instance counter excepted) is identical before and after"),
  "C15": dict(engine="engine-A", cat="model_checking", ref="DESIGN.md 4, 7/C15", note=SCHED_NOTE + "; the debugger console is modelled by a driver thread that polls `status` (a yielding sleep) and answers every reported suspension with the next command of its script", tech=SCHED_TECH + " + exhaustive enumeration of breakpoint sets x command scripts under the default schedule",
    text="(1) for 7 programs (straight line, function calls 1-2 deep, loop, try/raise, if/else, runtime error) every breakpoint subset of <= 2 "
         "lines x every command script of length <= 2 over {resume, stepin, stepover, stepout} plus stop-all variants is run on fresh real "
         "debuggers (about 3500 configurations) and compared with the undebugged run (result, log, final variables) and, with break-on-error off, "
-        "with the suspension lines derived from the program's line trace; (2) 10 selected configurations are explored under every schedule "
+        "with the suspension lines derived from the program's line trace; (1b) on a 12-line program every history of <= 2 (thorough 3) breakpoint "
+        "commands over {break, rmbreak, disablebreak} x lines {1, 2, 10, 12} + {rmbreak v, break vv:1, rmbreak vv}: the table reported by status "
+        "must equal a reference map and the thread must suspend exactly at the lines the reference says are active; (2) 17 selected configurations are explored under every schedule "
         "with <= 2 (thorough 3) preemptions: all timings of the continue / stop command relative to the thread reaching its wait; oracle: the "
-        "thread always leaves suspension (no deadlock / endless polling), no panic, same outcome as undebugged"),
+        "thread always leaves suspension (no deadlock / endless polling), no panic, same outcome as undebugged, with break-on-error off the sequence "
+        "of suspension lines equals the one derived from the line trace under every schedule, no unordered access to a debugger field"),
  "C16": dict(engine="engine-A", cat="model_checking", ref="DESIGN.md 5.3, 7/C16", note="default schedule only (the property is about the command interface, not about timing); canonical state = status output, per-thread (running, error, stack depth, line), breakpoint table and global variables; the debugger lock is read off the vsched shim through an overlay-added export seam", tech="explicit-state breadth-first search over the real debugger object: a state is the command history that reaches it, successors are built on fresh objects by replay, de-duplicated on a canonical observable form, invariant evaluated after every command",
-   text="from 6 debugger states (nothing executed, program finished, thread suspended at top level / 1 / 2 calls deep / on an error with map "
-        "data) every command line of a 140-390 line menu (10 commands + unknown, 0-4 arguments over valid/finished/zero/negative/huge/non-numeric "
+   text="from 8 debugger states (nothing executed, program finished, thread suspended at top level / 1 / 2 calls deep / on an error with map "
+        "data / at the first-ever visit of a single-statement program by breakpoint and by break-on-start) every command line of a 140-390 line menu (10 commands + unknown, 0-4 arguments over valid/finished/zero/negative/huge/non-numeric "
         "thread ids, known/unknown/malformed source:line targets, identifiers, expressions, garbage) is applied in every distinct canonical "
         "state up to depth 2 (thorough 3); invariant: no panic, result JSON-encodable when the error is nil, debugger lock free afterwards, "
-        "released threads run on without fault, a following status answers and is JSON-encodable, StopThreads releases the thread"),
+        "released threads run on without fault, a following status answers and is JSON-encodable, StopThreads releases the thread; plus 13 "
+        "concurrent scenarios (a command issued while a second program thread keeps running, every schedule with <= 1-2 preemptions): no deadlock, "
+        "no panic, no unordered access to a debugger field (map iteration / lookup racing with a map write)"),
  "C10": dict(engine="engine-A", cat="model_checking", ref="DESIGN.md 5.3, 7/C10", note=SCHED_NOTE + "; the order in which workers take events is read off the recorded schedule (acquisition order of the task queue's lock), so no linearizability search is needed; rules of equal priority may run in any order", tech="explicit-state breadth-first search over real monitor objects + exhaustive enumeration of priority assignments on the real processor + preemption-bounded schedule enumeration for the concurrent part",
    text="(i) every priority sequence in {0,1,2}^<=5 (thorough <=6) queued for one cascade and split over two cascades while the single worker is parked: "
         "pop order must be priority-FIFO (728 cases); (ii) 3 rules x priorities {0,1,2}^3 x failing subset x fail-on-first-error on/off x 'failing rule "
@@ -67,23 +82,26 @@ CHECKS = {
         "file lexically inside the root, a lexically outside path yields an error, no path outside the root reaches a file-system call"),
  "C18": dict(engine="engine-B", cat="exploration", ref="DESIGN.md 5, 7/C18", note="columns in bytes from 1; for comment tokens the reported position is that of the first content character; item sequences that do not lex into one token per item are skipped (counted)", tech="bounded exhaustive enumeration of token streams with generator-recorded offsets; line/column recomputed independently from the source text",
    text="every sequence of <= 4 items (thorough also 5) over {identifier, number, :=, (, quoted strings incl. multi-byte, raw multi-line string, "
-        "# comments, /* */ comments incl. multi-line} x separators {space, LF, CRLF, tab, none}: every token's Pos/Lline/Lpos must equal the "
-        "recorded offset and the recomputed line/column (1.4 million cases quick); planted errors after every prefix of <= 3-4 filler "
+        "# comments (LF, CR LF terminated, containing a lone CR, unterminated), /* */ comments incl. multi-line} x separators {space, LF, CRLF, tab, none}: every token's Pos/Lline/Lpos must equal the "
+        "recorded offset and the recomputed line/column (2.8 million cases quick); planted errors after every prefix of <= 3-4 filler "
         "statements/comments: a stray ')' (parser.Error), `1 + \"a\"` (util.RuntimeError) must be reported at the recomputed line/column, "
         "and statement separation must be unaffected by comments"),
- "C19": dict(engine="engine-B", cat="exploration", ref="DESIGN.md 5, 7/C19", note="number conversion is compared only where Go defines it exactly (integral values inside the parameter type's range, |x| < 2^53); Bessel functions of order >= 2^31 are excluded as non-termination inside bridged Go code", tech="bounded exhaustive enumeration of function x argument-vector pairs with independently computed expected conversions",
+ "C19": dict(engine="engine-B", cat="exploration", ref="DESIGN.md 5, 7/C19", note="number conversion is compared only where Go defines it exactly (integral values inside the parameter type's range); Bessel functions of order >= 2^31 are excluded as non-termination inside bridged Go code", tech="bounded exhaustive enumeration of function x argument-vector pairs with independently computed expected conversions",
    text="26 synthetic Go functions (identity per numeric kind int..uint64/uintptr/float32/float64, string, bool, interface, slice, variadic, (T,error) "
         "returning nil / non-nil, two results, no result, no arguments, panicking, nil-map write) and all 62 generated math.* adapters x every argument "
         "vector of length 0-3 (thorough 0-4) over a 24-value universe (null, booleans, 0, +-1, +-3, fractions, 255/256, 2^31, 2^53, 1e300, strings, "
         "lists, maps): no panic escapes, outcome is a value or a non-empty error, Go numbers arrive as float64, identity functions return "
         "float64(K(x)), a trailing Go error arrives as the error, panicking Go functions yield errors; math.* also through ECAL source with the "
-        "same verdict and value"),
+        "same verdict and value; the 13 identity functions x 36 boundary numbers (every integer kind's limits and their neighbours, the float64 "
+        "neighbours of 2^63 and 2^64)"),
  "C20": dict(engine="engine-B", cat="exploration", ref="DESIGN.md 5, 7/C20", note="the packed binary is started in-process through RunPackedBinary with the osArgs/osExit/osStderr/handleError package seams (overlay-added setter; the same variables the repository's pack tests use); the interpreter binary is represented by filler bytes", tech="exhaustive sweep over source-binary lengths modulo the scanner's buffer geometry x filler patterns x project trees, with an independent reading of the produced archive",
    text="source binaries of every length in [0, 2 scan periods] (thorough 3; period = 4096 + len(marker) + 11) x 5 filler patterns (no '#', all '#', "
         "'#' at block ends, partial markers straddling block boundaries, trailing newline) x 3 project trees (single file, nested directories with an "
         "imported library, empty file + binary file containing the marker) packed with the real CLIPacker.Pack; oracle: archive at offset "
         "L+len(marker) holds every file byte-identical (read independently with archive/zip), RunPackedBinary reaches the exit callback with the "
-        "entry file's value, imports see the packed library, never a panic or a fall-through to the normal command line"),
+        "entry file's value, imports see the packed library, never a panic or a fall-through to the normal command line; plus projects whose "
+        "imported library has exactly s bytes for s in {2^k-1, 2^k, 2^k+1 : k = 9..17} + {100, 40000, 100000, 200000} x {compressible, incompressible} "
+        "with its only definition at the very end"),
  "C07": dict(engine="engine-B", cat="exploration", ref="DESIGN.md 5, 7/C07", note="a goroutine blocked on an abandoned channel is stable, so the goroutine count / dump after the call is not a timing oracle; evaluation of accepted trees is C06's corpus", tech="bounded exhaustive enumeration of token sequences, program mutations and byte strings, with the tree's own consumers (PrettyPrint, Validate) as shape oracle and a goroutine census for leaks",
    text="all token sequences of length <= 3 over every keyword and symbol of the lexer plus identifier/number/string/newline (61 tokens) and of length 4 "
         "over a 34-token subset (thorough: length 4 over all, 5 over the subset: 69 million parses); all single (thorough double) token deletions, "
@@ -94,7 +112,9 @@ CHECKS = {
    text="all string literal bodies of <= 4 pieces (thorough 5, plus one more piece in the plain environment) over {{{, }}, {, }, a, space, x, tick(), 1+1, "
         "\\n, \\\"} in quoted and raw form, with x bound in turn to \"v\", \"{{tick()}}\", \"{{x}}\", \"}}\", \"{{\", \"{{1+1}}\" (300 000 evaluations "
         "quick): every literal yields a string without panic and within the step budget, tick() is called at most as often as it is written in the "
-        "literal itself, raw strings come back byte-identical, and well-nested literals equal the one-pass reference (substituted text never rescanned)"),
+        "literal itself, raw strings come back byte-identical, and well-nested literals equal the one-pass reference (substituted text never rescanned); failing pieces raise(x) and x+1 must not "
+        "evaluate the variable's content; re-entrant literals: func w(n) whose literal of 1-3 pieces over {<, >, space, {{n}}, {{w(n - 1)}}} interpolates "
+        "a call to itself, n = 0..3, must equal the recursive reference (the literal node is re-entered while one of its evaluations is in progress)"),
  "C08": dict(engine="engine-B", cat="exploration", ref="DESIGN.md 5, 7/C08", note="tree equality = node kind, token value, identifier flag, raw-vs-interpolating flag and child structure (positions, comments, blank lines ignored); four recorded findings (see known_findings.json) are pinned by the repository's own tests or need a redesign of comment placement", tech="bounded exhaustive enumeration of parseable programs with the round trip parse -> print -> parse -> print as oracle",
    text="every binary operator nested under every other on either side with and without parentheses, prefix operators on every operand and over every "
         "parenthesised pair, inside calls and index expressions (thorough: all operator triples in 5 parenthesisations); a 34-program corpus covering "
@@ -102,14 +122,17 @@ CHECKS = {
         "plain positions between/after top-level statements; lists and maps of 0-7 entries; sinks with every attribute subset; string literals over 13 "
         "pieces (quotes, escapes, newlines, {{ }}, multi-byte) of length <= 3-4 in the four quoting forms; tool.FormatFiles on a directory tree. "
         "Oracle: printing succeeds, the printed text parses to an equal tree, printing again gives the same text, unparseable files are left alone"),
- "C01": dict(engine="engine-B", cat="exploration", ref="DESIGN.md 5, 7/C01", note="'an equal value' = Go equality for scalars, deep equality for lists and maps; event states hold ECAL values; left open: a rule suppressing itself, regular expressions against a NULL state value, wildcard or empty segments inside an event kind; the processor part uses one real worker (the outcome is schedule independent)", tech="bounded exhaustive enumeration of rule sets x events x event histories against an independent reference matcher; breadth-first enumeration of event histories for the hidden trigger-cache state",
+ "C01": dict(engine="engine-B", also=["engine-A"], cat="exploration", ref="DESIGN.md 5, 7/C01", note="'an equal value' = Go equality for scalars, deep equality for lists and maps; event states hold ECAL values; left open: a rule suppressing itself, regular expressions against a NULL state value, wildcard or empty segments inside an event kind; the processor part uses one real worker (the outcome is schedule independent)", tech="bounded exhaustive enumeration of rule sets x events x event histories against an independent reference matcher; breadth-first enumeration of event histories for the hidden trigger-cache state",
    text="(1) RuleIndex.Match / IsTriggering for single rules with every kind pattern over {a, b, *} of length <= 2 (thorough 3) x every state pattern over "
         "two keys with required values {absent, NULL, 1, \"x\", regexp, list, map}, rules with two (overlapping / duplicate) kind patterns, pairs of rules "
         "sharing a leaf and pairs with different patterns, against every event kind of length 1-3 x 64 event states (780 000 cases quick); (2) leaf "
         "capacity: 1..130 state rules on one kind, every rule probed; (3) the real Processor: 10 rule sets with scope requirements, suppression "
         "lists, duplicate patterns and state patterns x 5 cascade scopes x every history of <= 2 (thorough 3) events with same / different names "
         "and kinds: the rules fired per event must equal the reference set (matching, in scope, unsuppressed), each exactly once, and a triggering "
-        "event is never skipped"),
+        "event is never skipped; (4) the scope rule alone: every requirement path against every set of <= 3 scope definitions over a 3-level "
+        "name tree, against a lexical reference; (5) purity: a reflective snapshot of the rule index (unexported fields, spare slice capacity) is "
+        "unchanged by Match / IsTriggering, which several workers call without a lock; (6) Engine A: two threads adding events (same / different "
+        "names and kinds) to a running processor under every schedule with <= 1-2 preemptions"),
  "C03": dict(engine="engine-B", cat="exploration", ref="DESIGN.md 5.2, 7/C03, 9a", note="reference semantics encode only what ecal.md and the property statement define; Unspecified (counted, not compared): zero divisors, % outside non-negative integers, ordering across kinds, equality/membership of containers, like/hasPrefix/hasSuffix on non-strings, membership in non-lists; left-to-right operand evaluation", tech="bounded exhaustive enumeration of expression trees against an independent reference evaluator that works on the generator's own trees (precedence from the stated table, not from the parser)",
    text="all x op y over 13 operands (numbers incl. 0 and fractions, strings, booleans, null, variables, a list) x 19 binary operators; prefix -, +, "
         "not on either operand and over the parenthesised pair; all x op1 y op2 z unparenthesised (reference tree built by precedence climbing over "
@@ -169,13 +192,13 @@ def main():
      },
      "engines": [],
      "checks": [],
-     "notes": "bin/check <id> --tier quick|thorough [--replay file]; exit 0 / 1 (VIOLATION line) / 2 (harness error, never a "
-              "VIOLATION line). Known findings and fixed defects: known_findings.json. Design: DESIGN.md.",
+     "notes": "bin/check <id> --tier quick|thorough [--replay file]; exit 0 / 1 (at least one confirmed VIOLATION line) / 2 (harness "
+              "error and no violation). Known findings and fixed defects: known_findings.json. Design: DESIGN.md.",
      "not_applicable": [],
     }
     for e in ENGINES:
         e = dict(e)
-        e["serves_properties"] = sorted(p for p, c in CHECKS.items() if c["engine"] == e["name"])
+        e["serves_properties"] = sorted(p for p, c in CHECKS.items() if c["engine"] == e["name"] or e["name"] in c.get("also", []))
         man["engines"].append(e)
     for p in props:
         pid = p["id"]
